@@ -27,7 +27,7 @@ TReq ==
   /\ More /\ Ev.ev = "req"
   /\ \/ (Ev.q \notin {"cid.put", "cid.cas"} /\ NodeStep(Ev.n, Ev.ans))
      \/ (Ev.q \in {"cid.put", "cid.cas"} /\ SetPutV(Ev.n, Ev.ans, Ev.v))
-  /\ Last.n = Ev.n /\ Last.q = Ev.q /\ Last.r = Ev.r
+  /\ Last.n = Ev.n /\ Last.op = Ev.op /\ Last.q = Ev.q /\ Last.r = Ev.r     \* (the call is logged: the VIEW hides hist)
   /\ (Ev.r # "err" \/ Ev.q # "session.create") => Last.p = Ev.p
   /\ Ev.q = "kv.acquire" => Last.v = Ev.v
   /\ l' = l + 1
